@@ -1,6 +1,6 @@
 """C06 -- evidence and concatenate (structural clauses)."""
 from ..core import Ctx, Ob, PropSpec
-from ..rules import extra2, r2, r3, r4, r8, r7i, r10
+from ..rules import extra2, r2, r3, r4, r8, r7i, r10, r13
 
 
 def run(ctx: Ctx) -> list[Ob]:
@@ -18,6 +18,7 @@ def run(ctx: Ctx) -> list[Ob]:
         )
     )
     obs += extra2.concatenate_order(ctx)
+    obs += r13.r13e(ctx)
     obs += [o for o in r3.r3d(ctx) if o.instance.startswith(("gather", "tensor-key")) or "Evidence" in o.construct]
     obs += [o for o in r4.layer_contracts(ctx, {"R4b"}) if o.construct.endswith(("TorchEvidenceLayer", "TorchConstantValueLayer"))]
     obs += [o for o in r3.r3c(ctx) if "Evidence" in o.construct]
@@ -37,6 +38,7 @@ SPEC = PropSpec(
         "re-instantiated by the folder with its wrapped layer, and the fold-group key gathers the settings of the wrapped layer from "
         "the sub-module itself (evidence layers wrapping differently-configured layers are not folded together). R7i: every comprehension over <circuit>.layer_inputs(<layer>) that re-wires a copied layer in this operator is an order-preserving total map (no `if` filter, not concatenated, not sorted / reversed / made a set): product layers and sum weights are positional. R10g (evaluation purity): no evaluation method (forward, __call__, evaluate, log_partition_function, integrate, sample, ...) of the evidence / constant layers stores anything on self -- a value memoised during evaluation survives in-place updates / re-initialisation / load_state_dict of the parameters it was computed from."
         " R3d tensor-key: the observation tensors evidence introduces are folded like every other tensor -- each attribute the folder copies from the first tensor of a group (shape, requires_grad, dtype) is part of the tensor fold key (an int observation and a float one must not share one folded tensor). R4b/R4x on TorchEvidenceLayer / TorchConstantValueLayer (shape interpretation): forward(batch_size) returns (F, B, Ko) for every size, and its axis 0 is the fold axis and axis 1 the batch axis as element orders, not only as sizes (a repeat + view that re-reads the buffer across axis boundaries hands fold f the value of fold (f*B+b) mod F)."
+        " R13e: the value handed to each evidence layer is looked up in the observation mapping by variable id (obs[v] for v over the layer's scope), never taken from obs.values() by position. R7e (element-wise form): outputs appended one by one are appended while iterating <operand>.outputs, not under a membership test inside another traversal."
     ),
     not_decided="numerical equality with the conditioned evaluation.",
     run=run,
